@@ -1473,8 +1473,13 @@ func genT2enc(c *Ctx) {
 		}
 		numCase(n, k)
 	}
-	// glyph round trips
-	for i := 0; i < c.N-nNum; i++ {
+	// targeted families (every run): near-flex curve pairs, curve forms, alternating lines, stem chunks
+	for _, args := range t2targeted(c) {
+		t2glyphCases(c, args, Direct, true)
+	}
+	// random glyphs
+	nG := (c.N - nNum) / 4
+	for i := 0; i < nG; i++ {
 		lim := 16000 // steps stay below 32767
 		kind := Direct
 		if i%12 == 11 {
@@ -1482,15 +1487,374 @@ func genT2enc(c *Ctx) {
 			kind = Diagnostic
 		}
 		args, nt := genT2glyph(c, lim)
-		f := parseFields(args)
+		c.Stat("t2enc.step-domain", map[bool]string{true: "coordinates in ±16000 (steps < 32767)", false: "coordinates in ±32000 (diagnostic)"}[lim == 16000])
+		t2glyphCases(c, args, kind, nt)
+	}
+}
+
+
+// ---------------------------------------------------------------- compiler internals (hooks)
+
+// t2runs lists the maximal runs [lo,hi) of lineto/curveto commands.
+func t2runs(cmds []cff.GlyphOp) [][2]int {
+	var out [][2]int
+	for i := 0; i < len(cmds); {
+		if cmds[i].Op == cff.OpLineTo || cmds[i].Op == cff.OpCurveTo {
+			k := i
+			for k < len(cmds) && (cmds[k].Op == cff.OpLineTo || cmds[k].Op == cff.OpCurveTo) {
+				k++
+			}
+			out = append(out, [2]int{i, k})
+			i = k
+		} else {
+			i++
+		}
+	}
+	return out
+}
+
+func t2edgeStr(e cff.VerifT2Edge) string {
+	var b []byte
+	for _, c := range e.Code {
+		b = append(b, c...)
+	}
+	return fmt.Sprintf("%d/%s", e.To, hx(b))
+}
+
+func t2edgeOp(e cff.VerifT2Edge) int {
+	last := e.Code[len(e.Code)-1]
+	if len(last) == 2 {
+		return int(last[0])<<8 | int(last[1])
+	}
+	return int(last[0])
+}
+
+func t2chosenPaths(cmds []cff.GlyphOp) string {
+	var parts []string
+	for _, r := range t2runs(cmds) {
+		var steps []string
+		for _, e := range cff.VerifT2ChosenPathRange(cmds, r[0], r[1]) {
+			steps = append(steps, fmt.Sprintf("%d.%d", e.To, t2edgeOp(e)))
+		}
+		parts = append(parts, strings.Join(steps, ","))
+	}
+	return strings.Join(parts, "/")
+}
+
+func init() {
+	ops["t2.encargs"] = func(f Fields) string {
+		g, _, _ := t2parseGlyph(f)
+		var out []string
+		for _, c := range cff.VerifT2EncodeArgs(g.Cmds) {
+			switch c.Op {
+			case cff.OpMoveTo, cff.OpLineTo, cff.OpCurveTo:
+				t := map[cff.GlyphOpType]string{cff.OpMoveTo: "m:", cff.OpLineTo: "l:", cff.OpCurveTo: "c:"}[c.Op]
+				a := make([]string, len(c.Args))
+				for i, x := range c.Args {
+					a[i] = t2units(x.Val) + "/" + hx(x.Code)
+				}
+				out = append(out, t+strings.Join(a, ","))
+			case cff.OpHintMask:
+				out = append(out, "h:"+hx(c.Args[0].Code))
+			case cff.OpCntrMask:
+				out = append(out, "k:"+hx(c.Args[0].Code))
+			}
+		}
+		return strings.Join(out, ";")
+	}
+	ops["t2.edges"] = func(f Fields) string {
+		g, _, _ := t2parseGlyph(f)
+		var out []string
+		for ri, r := range t2runs(g.Cmds) {
+			for i := 0; i < r[1]-r[0]; i++ {
+				var es []string
+				for _, e := range cff.VerifT2EdgesRange(g.Cmds, r[0], r[1], i) {
+					es = append(es, t2edgeStr(e))
+				}
+				out = append(out, fmt.Sprintf("%d.%d=%s", ri, i, strings.Join(es, ",")))
+			}
+		}
+		return strings.Join(out, ";")
+	}
+	ops["t2.asm"] = func(f Fields) string {
 		g, dw, nw := t2parseGlyph(f)
+		if p := t2chosenPaths(g.Cmds); p != f["paths"] {
+			return "stale-path:" + p
+		}
 		code, err := cff.VerifT2EncodeCharString(g, dw, nw)
 		if err != nil {
-			c.Stat("t2enc.encode-error", err.Error())
-			continue
+			return "none"
 		}
-		c.Stat("t2enc.charstring-bytes", bucket(len(code)))
-		c.Stat("t2enc.step-domain", map[bool]string{true: "coordinates in ±16000 (steps < 32767)", false: "coordinates in ±32000 (diagnostic)"}[lim == 16000])
-		c.Case(kind, "t2.rt", "code="+hx(code)+" "+args, nt)
+		return hx(code)
 	}
+}
+
+// t2glyphCases emits the four lines of one glyph: encodeArgs (V), edge proposals at every node (V),
+// assembly of the chosen path (V), specification round trip of the emitted bytes (D, or G outside the hypothesis)
+func t2glyphCases(c *Ctx, args string, kind string, nt bool) {
+	f := parseFields(args)
+	g, dw, nw := t2parseGlyph(f)
+	code, err := cff.VerifT2EncodeCharString(g, dw, nw)
+	if err != nil {
+		c.Stat("t2enc.encode-error", err.Error())
+		return
+	}
+	c.Stat("t2enc.charstring-bytes", bucket(len(code)))
+	for _, r := range t2runs(g.Cmds) {
+		for _, e := range cff.VerifT2ChosenPathRange(g.Cmds, r[0], r[1]) {
+			c.Stat("t2enc.chosen-operator", fmt.Sprint(t2edgeOp(e)))
+		}
+	}
+	c.Case(Verdict, "t2.encargs", args, nt)
+	c.Case(Verdict, "t2.edges", args, nt)
+	c.Case(Verdict, "t2.asm", args+" paths="+t2chosenPaths(g.Cmds), nt)
+	c.Case(kind, "t2.rt", "code="+hx(code)+" "+args, nt)
+}
+
+// t2fromDeltas builds "m:…;l:…;c:…" from relative segments (2 numbers = line, 6 = curve), scale 2^-20
+func t2fromDeltas(x, y int, segs [][]int) string {
+	cmds := []string{fmt.Sprintf("m:%d,%d", x, y)}
+	for _, s := range segs {
+		if len(s) == 2 {
+			x, y = x+s[0], y+s[1]
+			cmds = append(cmds, fmt.Sprintf("l:%d,%d", x, y))
+		} else {
+			xa, ya := x+s[0], y+s[1]
+			xb, yb := xa+s[2], ya+s[3]
+			xc, yc := xb+s[4], yb+s[5]
+			cmds = append(cmds, fmt.Sprintf("c:%d,%d,%d,%d,%d,%d", xa, ya, xb, yb, xc, yc))
+			x, y = xc, yc
+		}
+	}
+	return strings.Join(cmds, ";")
+}
+
+func t2plain(cmds string) string {
+	return fmt.Sprintf("w=0 dw=0 nw=0 hs= vs= cmds=%s", cmds)
+}
+
+// t2targeted: the shapes around every applicability condition of the operator forms
+func t2targeted(c *Ctx) []string {
+	r := c.Rng
+	var out []string
+	// a non-zero delta in the flavour of this glyph (integer, 16.16, finer)
+	nz := func(fl int) int {
+		v := r.Range(1, 90) * t2scale
+		if r.Bool() {
+			v = -v
+		}
+		switch fl {
+		case 1:
+			v += r.Range(1, 65535) * 16
+		case 2:
+			v += r.Range(1, t2scale-1)
+		}
+		return v
+	}
+	// (a) near-flex pairs: dy1..dy6 (and transposed: dx1..dx6) zero / non-zero in all 64 patterns;
+	// without and with the pair returning to the start coordinate (one delta absorbs the sum)
+	for transpose := 0; transpose < 2; transpose++ {
+		for mask := 0; mask < 64; mask++ {
+			fl := r.Intn(3)
+			var minor [6]int
+			var nzIdx []int
+			for i := 0; i < 6; i++ {
+				if mask>>i&1 == 1 {
+					minor[i] = nz(fl)
+					nzIdx = append(nzIdx, i)
+				}
+			}
+			variants := [][6]int{minor}
+			for _, j := range nzIdx {
+				v := minor
+				sum := 0
+				for i, d := range v {
+					if i != j {
+						sum += d
+					}
+				}
+				v[j] = -sum
+				variants = append(variants, v)
+			}
+			if mask>>1&1 == 1 && mask>>4&1 == 1 { // dy2 + dy5 = 0 while the other deltas stay
+				v := minor
+				v[4] = -v[1]
+				variants = append(variants, v)
+			}
+			for vi, v := range variants {
+				var major [6]int
+				for i := range major {
+					major[i] = nz(fl)
+					if r.Chance(1, 8) {
+						major[i] = 0
+					}
+				}
+				seg := func(k int) []int {
+					s := make([]int, 6)
+					for i := 0; i < 3; i++ {
+						a, b := major[3*k+i], v[3*k+i]
+						if transpose == 1 {
+							a, b = b, a
+						}
+						s[2*i], s[2*i+1] = a, b
+					}
+					return s
+				}
+				segs := [][]int{seg(0), seg(1)}
+				if r.Chance(1, 4) { // something before / after the pair
+					segs = append([][]int{{nz(fl), nz(fl)}}, segs...)
+				}
+				if r.Chance(1, 4) {
+					segs = append(segs, []int{nz(fl), nz(fl), nz(fl), nz(fl), nz(fl), nz(fl)})
+				}
+				ret := "free"
+				if vi > 0 {
+					ret = "returns-to-start"
+				}
+				c.Stat("t2enc.family", "flex-pair/"+[]string{"y", "x"}[transpose]+"/"+ret)
+				out = append(out, t2plain(t2fromDeltas(nz(0), nz(0), segs)))
+			}
+		}
+	}
+	// (b) curve forms: first/last tangent horizontal, vertical or free for runs of 1..4 curves
+	curve := func(fl, t0, t1 int) []int {
+		s := []int{nz(fl), nz(fl), nz(fl), nz(fl), nz(fl), nz(fl)}
+		if t0 == 0 {
+			s[1] = 0
+		} else if t0 == 1 {
+			s[0] = 0
+		}
+		if t1 == 0 {
+			s[5] = 0
+		} else if t1 == 1 {
+			s[4] = 0
+		}
+		return s
+	}
+	for n := 1; n <= 4; n++ {
+		total := 1
+		for i := 0; i < n; i++ {
+			total *= 9
+		}
+		count := total
+		if count > 81 {
+			count = 70
+		}
+		for k := 0; k < count; k++ {
+			code := k
+			if total > 81 {
+				code = r.Intn(total)
+			}
+			fl := r.Intn(3)
+			var segs [][]int
+			for i := 0; i < n; i++ {
+				t := code % 9
+				code /= 9
+				segs = append(segs, curve(fl, t/3, t%3))
+			}
+			switch r.Intn(5) {
+			case 0:
+				segs = append(segs, []int{nz(fl), nz(fl)})
+			case 1:
+				segs = append([][]int{{nz(fl), nz(fl)}}, segs...)
+			}
+			c.Stat("t2enc.family", fmt.Sprintf("curve-tangents/%d-curves", n))
+			out = append(out, t2plain(t2fromDeltas(nz(0), nz(0), segs)))
+		}
+	}
+	// long alternating hv/vh curve runs (stack bound of hvcurveto/hhcurveto: 12 curves = 48 operands)
+	for _, n := range []int{11, 12, 13, 14} {
+		for start := 0; start < 2; start++ {
+			for _, form := range []int{0, 1} {
+				fl := r.Intn(3)
+				var segs [][]int
+				for i := 0; i < n; i++ {
+					if form == 0 { // alternating start tangents, aligned ends
+						h := (i+start)%2 == 0
+						if h {
+							segs = append(segs, curve(fl, 0, 1))
+						} else {
+							segs = append(segs, curve(fl, 1, 0))
+						}
+					} else { // all hh or all vv
+						segs = append(segs, curve(fl, start, start))
+					}
+				}
+				c.Stat("t2enc.family", fmt.Sprintf("curve-run/%d", n))
+				out = append(out, t2plain(t2fromDeltas(nz(0), nz(0), segs)))
+			}
+		}
+	}
+	// (c) alternating h/v line runs of odd and even length, around the stack limit, with and without a break
+	for _, n := range []int{1, 2, 3, 4, 5, 6, 7, 23, 24, 25, 47, 48, 49, 50} {
+		for start := 0; start < 2; start++ {
+			for brk := 0; brk < 2; brk++ {
+				fl := r.Intn(3)
+				var segs [][]int
+				for i := 0; i < n; i++ {
+					if (i+start)%2 == 0 {
+						segs = append(segs, []int{nz(fl), 0})
+					} else {
+						segs = append(segs, []int{0, nz(fl)})
+					}
+				}
+				if brk == 1 {
+					k := r.Intn(n)
+					segs[k] = []int{nz(fl), nz(fl)}
+				}
+				c.Stat("t2enc.family", fmt.Sprintf("alternating-lines/%s", bucket(n)))
+				out = append(out, t2plain(t2fromDeltas(nz(0), nz(0), segs)))
+			}
+		}
+	}
+	// diagonal line runs around the stack limit (24 lines = 48 operands), zero deltas inside
+	for _, n := range []int{23, 24, 25, 26, 48, 49} {
+		fl := r.Intn(3)
+		var segs [][]int
+		for i := 0; i < n; i++ {
+			s := []int{nz(fl), nz(fl)}
+			if r.Chance(1, 10) {
+				s[r.Intn(2)] = 0
+			}
+			segs = append(segs, s)
+		}
+		c.Stat("t2enc.family", fmt.Sprintf("diagonal-lines/%d", n))
+		out = append(out, t2plain(t2fromDeltas(nz(0), nz(0), segs)))
+	}
+	// (d) header: width default / explicit x number of stem pairs x mask first / no mask
+	for _, nh := range []int{0, 1, 23, 24, 25, 48} {
+		for _, nv := range []int{0, 1, 23, 24, 25, 48} {
+			for wd := 0; wd < 2; wd++ {
+				for mf := 0; mf < 2; mf++ {
+					if nh+nv == 0 && mf == 1 {
+						continue
+					}
+					stem := func(n int) []int {
+						var s []int
+						pos := r.Range(-100, 100) * t2scale
+						for i := 0; i < n; i++ {
+							pos += r.Range(0, 30) * t2scale
+							s = append(s, pos)
+							pos += r.Range(1, 20) * t2scale
+							s = append(s, pos)
+						}
+						return s
+					}
+					w := 500 * t2scale
+					if wd == 1 {
+						w = 620 * t2scale
+					}
+					cmds := t2fromDeltas(nz(0), nz(0), [][]int{{nz(0), 0}, {0, nz(0)}, {nz(0), nz(0)}})
+					if mf == 1 {
+						cmds = "h:" + hx(r.Bytes((nh+nv+7)/8)) + ";" + cmds
+					}
+					c.Stat("t2enc.family", "header")
+					c.Stat("t2enc.stems", fmt.Sprintf("h%s+v%s", bucket(nh), bucket(nv)))
+					out = append(out, fmt.Sprintf("w=%d dw=%d nw=%d hs=%s vs=%s cmds=%s", w, 500*65536, 400*65536,
+						ints(stem(nh)), ints(stem(nv)), cmds))
+				}
+			}
+		}
+	}
+	return out
 }
